@@ -1,6 +1,6 @@
 (* Lemmas behind C04, C05 and C17 (the Muxer).  Part 1: how many bytes a list of writer items produces
    (no assumption on the byte values), and "every packet writePacket accepts is exactly 188 bytes". *)
-From Coq Require Import ZArith List Lia Bool ZifyBool.
+From Coq Require Import ZArith List Lia Bool ZifyBool Sorted.
 Require Import Base.Bits Base.Iter Base.Wr Gen.Consts Gen.Types Gen.Preds
   Model.Clock Model.Packet Model.Pes Model.Desc Model.Psi Model.Muxer.
 Import ListNotations.
@@ -1370,4 +1370,252 @@ Proof.
     rewrite HL in HL'. symmetry in HL'. apply app_eq_nil in HL'. destruct HL' as [HL' _]. apply ccs_from_nil in HL'. subst k. exact Hs'.
   - intros HL. destruct (step_table_effect false _ _ _ _ Hinv Hstep Hp Ho) as (k & rest & HL' & _ & Hs'). cbn [table_pid table_cc] in *.
     rewrite HL in HL'. symmetry in HL'. apply app_eq_nil in HL'. destruct HL' as [HL' _]. apply ccs_from_nil in HL'. subst k. exact Hs'.
+Qed.
+
+(* ================= Part 4: C17 ================= *)
+
+(* ---------------- automatic PIDs ---------------- *)
+
+Definition count_ge (n : Z) (l : list PMTElementaryStream) : Z :=
+  Z.of_nat (length (filter (fun e => n <=? spid e) l)).
+
+Lemma count_ge_nonneg n l : 0 <= count_ge n l. Proof. unfold count_ge. lia. Qed.
+
+Lemma count_ge_cons n e l : count_ge n (e :: l) = (if n <=? spid e then 1 else 0) + count_ge n l.
+Proof. unfold count_ge. cbn [filter]. destruct (n <=? spid e); cbn [length]; lia. Qed.
+
+Lemma count_ge_succ_le n l : count_ge (n + 1) l <= count_ge n l.
+Proof.
+  induction l as [|e l IH]; [reflexivity|]. rewrite !count_ge_cons.
+  destruct (n + 1 <=? spid e) eqn:E1, (n <=? spid e) eqn:E2; lia.
+Qed.
+
+Lemma count_ge_notin n l : stream_pid_in n l = false -> count_ge (n + 1) l = count_ge n l.
+Proof.
+  induction l as [|e l IH]; [reflexivity|]. rewrite stream_pid_in_cons, !count_ge_cons.
+  intros H. apply orb_false_iff in H. destruct H as [H1 H2]. rewrite (IH H2).
+  destruct (n + 1 <=? spid e) eqn:E1, (n <=? spid e) eqn:E2; lia.
+Qed.
+
+Lemma count_ge_succ_mem n l : NoDup (map spid l) -> stream_pid_in n l = true -> count_ge (n + 1) l = count_ge n l - 1.
+Proof.
+  induction l as [|e l IH]; intros Hnd Hin; [discriminate|].
+  cbn [map] in Hnd. inversion Hnd as [|x xs Hnotin Hnd']; subst x xs.
+  rewrite stream_pid_in_cons in Hin. rewrite !count_ge_cons.
+  destruct (spid e =? n) eqn:E.
+  - apply Z.eqb_eq in E. rewrite count_ge_notin.
+    + destruct (n + 1 <=? spid e) eqn:E1, (n <=? spid e) eqn:E2; lia.
+    + destruct (stream_pid_in n l) eqn:Es; [|reflexivity]. apply stream_pid_in_In in Es. rewrite <- E in Es. contradiction.
+  - cbn [orb] in Hin. rewrite (IH Hnd' Hin).
+    destruct (n + 1 <=? spid e) eqn:E1, (n <=? spid e) eqn:E2; lia.
+Qed.
+
+Lemma count_ge_app n l e : count_ge n (l ++ [e]) = count_ge n l + (if n <=? spid e then 1 else 0).
+Proof.
+  induction l as [|x l IH]; cbn [app]; rewrite ?count_ge_cons.
+  - unfold count_ge. cbn. lia.
+  - rewrite IH. lia.
+Qed.
+
+Lemma count_ge_remove n q l : count_ge n (remove_first_pid q l) <= count_ge n l.
+Proof.
+  induction l as [|e l IH]; [reflexivity|]. cbn [remove_first_pid]. destruct (_ =? q).
+  - rewrite count_ge_cons. destruct (n <=? spid e); lia.
+  - rewrite !count_ge_cons. lia.
+Qed.
+
+(* the potential that bounds nextPID: the PIDs still ahead of it that automatic assignment will have to skip *)
+Definition pid_potential (l : list PMTElementaryStream) (n : Z) : Z :=
+  n + count_ge n l + (if n <=? C_pmtStartPID then 1 else 0).
+
+Lemma nfp_bound fuel : forall es streams n p B,
+  (forall q, es_mem q es = stream_pid_in q streams) -> NoDup (map spid streams) ->
+  next_free_pid fuel es n = Some p -> pid_potential streams n <= B -> B < 65535 -> 0 <= n ->
+  n <= p /\ pid_potential streams p <= pid_potential streams n /\ es_mem p es = false /\ p <> C_pmtStartPID.
+Proof.
+  induction fuel as [|fuel IH]; intros es streams n p B Hkeys Hnd Hnf HB HB2 Hn; cbn [next_free_pid] in Hnf; [discriminate|].
+  destruct (es_mem n es || (n =? C_pmtStartPID)) eqn:E.
+  - assert (Hn1 : n <= B) by (unfold pid_potential in HB; pose proof (count_ge_nonneg n streams); destruct (n <=? C_pmtStartPID); lia).
+    rewrite Z.mod_small in Hnf by lia.
+    assert (Hpot : pid_potential streams (n + 1) <= pid_potential streams n).
+    { unfold pid_potential. apply orb_true_iff in E. destruct E as [E|E].
+      - rewrite Hkeys in E. rewrite (count_ge_succ_mem n streams Hnd E).
+        destruct (n + 1 <=? C_pmtStartPID) eqn:E1, (n <=? C_pmtStartPID) eqn:E2; lia.
+      - apply Z.eqb_eq in E. pose proof (count_ge_succ_le n streams).
+        destruct (n + 1 <=? C_pmtStartPID) eqn:E1, (n <=? C_pmtStartPID) eqn:E2; lia. }
+    destruct (IH es streams (n + 1) p B Hkeys Hnd Hnf ltac:(lia) HB2 ltac:(lia)) as (H1 & H2 & H3 & H4).
+    repeat split; try assumption; lia.
+  - inversion Hnf; subst. apply orb_false_iff in E. destruct E as [E1 E2]. repeat split; try lia; try exact E1.
+Qed.
+
+(* nextPID never falls below startPID and, with a additions so far, is at most startPID + a (+1 once past pmtStartPID) *)
+Definition pid_inv (s : mstate) (a : Z) : Prop :=
+  C_startPID <= ms_next_pid s /\ pid_potential (ms_streams s) (ms_next_pid s) <= C_startPID + 1 + a.
+
+Lemma write_data_frame s d s' p : write_data s d = (s', p) -> pa_res p <> Panic ->
+  ms_streams s' = ms_streams s /\ ms_next_pid s' = ms_next_pid s /\ ms_pcr_pid s' = ms_pcr_pid s /\ ms_period s' = ms_period s.
+Proof.
+  intros Hstep Hnp. unfold write_data in Hstep. destruct (es_find _ _) as [ctx|]; [|pinj Hstep; repeat split; reflexivity].
+  destruct (retransmit_tables s _) as [sr pt] eqn:Ert. destruct pt as [rt nt gt pkt]. destruct rt as [u|c|].
+  - assert (Hpt : pa_res (mk_part (Ok u) nt gt pkt) <> Panic) by (cbn; congruence).
+    destruct (retransmit_frame _ _ _ _ Ert Hpt) as (_ & F1 & F3 & F2 & F4 & _).
+    destruct (MuxerData_PES d) as [pes|]; [|pinj Hstep; repeat split; assumption].
+    destruct (PESData_Data pes); [pinj Hstep; repeat split; assumption|].
+    destruct (PESData_Header pes); pinj Hstep; repeat split; assumption.
+  - assert (Hpt : pa_res (mk_part (Err c) nt gt pkt) <> Panic) by (cbn; congruence).
+    destruct (retransmit_frame _ _ _ _ Ert Hpt) as (_ & F1 & F3 & F2 & F4 & _). pinj Hstep. repeat split; assumption.
+  - pinj Hstep. cbn in Hnp. congruence.
+Qed.
+
+Lemma step_pid_inv s o s' p a : ms_inv s -> pid_inv s a -> mux_step_part s o = (s', p) -> pa_res p <> Panic ->
+  0 <= a -> a + is_add o <= max_adds -> pid_inv s' (a + is_add o).
+Proof.
+  intros Hinv [Hlo Hpot] Hstep Hnp Ha Hmax. pose proof Hinv as [Hkeys Hnd _ _ _]. unfold max_adds in Hmax.
+  destruct o as [es|q|q| |d|pk]; cbn [mux_step_part is_add] in *.
+  - unfold add_es in Hstep. fold (spid es) in Hstep. destruct (negb (spid es =? 0)) eqn:Ezero.
+    + destruct (stream_pid_in (spid es) (ms_streams s)) eqn:Edup; pinj Hstep; [split; [exact Hlo|lia]|].
+      split; [exact Hlo|]. cbn [set_streams_es ms_streams ms_next_pid]. unfold pid_potential in *. rewrite count_ge_app.
+      destruct (ms_next_pid s <=? spid es); lia.
+    + destruct (next_free_pid _ _ _) as [np|] eqn:Enf; pinj Hstep; [|cbn in Hnp; congruence].
+      destruct (nfp_bound _ _ _ _ _ (C_startPID + 1 + a) Hkeys Hnd Enf Hpot ltac:(unfold C_startPID; lia) ltac:(unfold C_startPID in *; lia))
+        as (H1 & H2 & H3 & H4).
+      assert (Hnp1 : np <= C_startPID + 1 + a).
+      { unfold pid_potential in H2, Hpot. pose proof (count_ge_nonneg np (ms_streams s)). destruct (np <=? C_pmtStartPID); lia. }
+      unfold pid_inv. cbn [set_streams_es ms_streams ms_next_pid]. rewrite Z.mod_small by (unfold C_startPID in *; lia).
+      split; [lia|]. unfold pid_potential in *. rewrite count_ge_app. change (spid (with_pid es np)) with np.
+      rewrite Hkeys in H3. rewrite (count_ge_notin np _ H3).
+      destruct (np + 1 <=? np) eqn:E0; [lia|].
+      destruct (np + 1 <=? C_pmtStartPID) eqn:E1, (np <=? C_pmtStartPID) eqn:E2; lia.
+  - unfold remove_es in Hstep. destruct (stream_pid_in q (ms_streams s)); pinj Hstep; [|split; [exact Hlo|lia]].
+    split; [exact Hlo|]. cbn [set_streams_es ms_streams ms_next_pid]. unfold pid_potential in *.
+    pose proof (count_ge_remove (ms_next_pid s) q (ms_streams s)). lia.
+  - pinj Hstep. split; [exact Hlo|]. cbn [set_pcr ms_streams ms_next_pid]. lia.
+  - destruct (write_tables_spec _ _ _ Hstep Hnp) as [(c & _ & -> & _)|(? & ? & ? & ? & _ & _ & _ & _ & _ & _ & _ & _ & _ & ->)];
+      (split; [exact Hlo|cbn [tables_state set_tables ms_streams ms_next_pid]; lia]).
+  - destruct (write_data_frame _ _ _ _ Hstep Hnp) as (Hf1 & Hf2 & _).
+    unfold pid_inv. rewrite Hf1, Hf2. split; [exact Hlo|lia].
+  - pinj Hstep. split; [exact Hlo|lia].
+Qed.
+
+Lemma new_muxer_pid_inv period : pid_inv (new_muxer period) 0.
+Proof. split; [cbn; lia|]. reflexivity. Qed.
+
+(* what an automatic addition does, in a state that satisfies the two invariants *)
+Lemma auto_add_spec s es s' p a : ms_inv s -> pid_inv s a -> 0 <= a -> a + 1 <= max_adds ->
+  spid es = 0 -> mux_step_part s (MAdd es) = (s', p) -> pa_res p = Ok tt ->
+  exists pid, ms_streams s' = ms_streams s ++ [with_pid es pid] /\ ms_next_pid s' = pid + 1 /\
+    ms_next_pid s <= pid /\ C_startPID <= pid <= 8190 /\ pid <> C_pmtStartPID /\
+    stream_pid_in pid (ms_streams s) = false /\ es_mem pid (ms_es s) = false.
+Proof.
+  intros Hinv [Hlo Hpot] Ha Hmax Hz Hstep Hok. pose proof Hinv as [Hkeys Hnd _ _ _]. unfold max_adds in Hmax.
+  cbn [mux_step_part] in Hstep. unfold add_es in Hstep. fold (spid es) in Hstep. rewrite Hz in Hstep. cbn [Z.eqb negb] in Hstep.
+  destruct (next_free_pid _ _ _) as [np|] eqn:Enf; pinj Hstep; [|cbn in Hok; discriminate].
+  destruct (nfp_bound _ _ _ _ _ (C_startPID + 1 + a) Hkeys Hnd Enf Hpot ltac:(unfold C_startPID; lia) ltac:(unfold C_startPID in *; lia))
+    as (H1 & H2 & H3 & H4).
+  assert (Hnp1 : np <= C_startPID + 1 + a).
+  { unfold pid_potential in H2, Hpot. pose proof (count_ge_nonneg np (ms_streams s)). destruct (np <=? C_pmtStartPID); lia. }
+  exists np. cbn [set_streams_es ms_streams ms_next_pid]. rewrite Z.mod_small by (unfold C_startPID in *; lia).
+  repeat split; try assumption; try lia.
+  - (* np <= 8190: past pmtStartPID the potential has already paid for the skip *)
+    unfold pid_potential in H2, Hpot. pose proof (count_ge_nonneg np (ms_streams s)). unfold C_startPID, C_pmtStartPID in *.
+    destruct (np <=? 4096) eqn:E; lia.
+  - rewrite <- Hkeys. exact H3.
+Qed.
+
+Lemma step_next_pid s o s' p : mux_step_part s o = (s', p) -> pa_res p <> Panic ->
+  ms_next_pid s' = ms_next_pid s \/ (exists es, o = MAdd es /\ spid es = 0 /\ pa_res p = Ok tt).
+Proof.
+  intros Hstep Hnp. destruct o as [es|q|q| |d|pk]; cbn [mux_step_part] in Hstep.
+  - unfold add_es in Hstep. fold (spid es) in Hstep. destruct (negb (spid es =? 0)) eqn:Ez.
+    + left. destruct (stream_pid_in _ _); pinj Hstep; reflexivity.
+    + destruct (next_free_pid _ _ _); pinj Hstep; [|cbn in Hnp; congruence].
+      right. exists es. repeat split. apply negb_false_iff, Z.eqb_eq in Ez. exact Ez.
+  - left. unfold remove_es in Hstep. destruct (stream_pid_in _ _); pinj Hstep; reflexivity.
+  - left. pinj Hstep. reflexivity.
+  - left. destruct (write_tables_spec _ _ _ Hstep Hnp) as [(c & _ & -> & _)|(? & ? & ? & ? & _ & _ & _ & _ & _ & _ & _ & _ & _ & ->)]; reflexivity.
+  - left. apply (write_data_frame _ _ _ _ Hstep Hnp).
+  - left. pinj Hstep. reflexivity.
+Qed.
+
+Lemma last_app_single {A} (l : list A) x d : last (l ++ [x]) d = x.
+Proof. rewrite last_app_nonempty by discriminate. reflexivity. Qed.
+
+Lemma adds_nonneg ops : 0 <= adds ops.
+Proof. induction ops as [|o r IH]; [cbn; lia|]. cbn [adds fold_right]. fold (adds r). destruct o; cbn [is_add]; lia. Qed.
+
+(* the PIDs automatic assignment hands out over a run: increasing (hence pairwise distinct), inside
+   [startPID, 0x1FFE] and never pmtStartPID *)
+Lemma auto_pids_spec : forall ops s a, ms_inv s -> pid_inv s a -> 0 <= a -> a + adds ops <= max_adds ->
+  no_panic (snd (mux_run_parts s ops)) -> Forall op_entry_ok ops ->
+  Forall (fun x => ms_next_pid s <= x /\ auto_pid_ok x) (auto_pids s ops) /\ StronglySorted Z.lt (auto_pids s ops).
+Proof.
+  induction ops as [|o r IH]; intros s a Hinv Hpid Ha Hmax Hnp Hen; [split; constructor|].
+  rewrite mux_run_parts_cons in Hnp. cbn [snd] in Hnp. cbn [auto_pids adds fold_right] in *. fold (adds r) in Hmax.
+  inversion Hnp as [|x xs Hp Hnp']; subst. inversion Hen as [|y ys Ho Hen']; subst.
+  destruct (mux_step_part s o) as [s1 p] eqn:E. cbn [fst snd] in *.
+  pose proof (adds_nonneg r) as Hr.
+  assert (His : 0 <= is_add o <= 1) by (destruct o; cbn; lia).
+  pose proof (step_inv _ _ _ _ Hinv E Hp Ho) as Hinv1.
+  pose proof (step_pid_inv _ _ _ _ a Hinv Hpid E Hp Ha ltac:(lia)) as Hpid1.
+  destruct (IH s1 (a + is_add o) Hinv1 Hpid1 ltac:(lia) ltac:(lia) Hnp' Hen') as [IH1 IH2].
+  destruct (step_next_pid _ _ _ _ E Hp) as [Hsame|(es & -> & Hz & Hok)].
+  - assert (Hnil : match o with
+                   | MAdd es => if (PMTElementaryStream_ElementaryPID es =? 0) && is_ok (pa_res p)
+                                then [PMTElementaryStream_ElementaryPID (last (ms_streams s1) zero_PMTElementaryStream)] else []
+                   | _ => [] end = [] \/ exists es, o = MAdd es /\ spid es = 0 /\ pa_res p = Ok tt).
+    { destruct o as [es| | | | |]; try (left; reflexivity). fold (spid es).
+      destruct (spid es =? 0) eqn:Ez; [|left; reflexivity]. destruct (pa_res p) as [[]| |] eqn:Er; cbn [is_ok andb]; try (left; reflexivity).
+      right. exists es. repeat split. apply Z.eqb_eq, Ez. }
+    destruct Hnil as [-> |(es & -> & Hz & Hok)].
+    + cbn [app]. rewrite <- Hsame. split; assumption.
+    + (* an automatic addition always moves nextPID; this case is covered below *)
+      cbn [is_add] in *.
+      destruct (auto_add_spec _ _ _ _ a Hinv Hpid Ha ltac:(lia) Hz E Hok) as (pid & _ & Hnext & Hle & _). lia.
+  - cbn [is_add] in *.
+    destruct (auto_add_spec _ _ _ _ a Hinv Hpid Ha ltac:(lia) Hz E Hok) as (pid & Hst & Hnext & Hle & Hrange & Hnpmt & _).
+    fold (spid es). rewrite Hz, Hok. cbn [Z.eqb is_ok andb]. rewrite Hst, last_app_single.
+    change (PMTElementaryStream_ElementaryPID (with_pid es pid)) with pid. cbn [app]. split.
+    + constructor; [split; [exact Hle|split; assumption]|].
+      eapply Forall_impl; [|exact IH1]. cbn. intros x [Hx1 Hx2]. split; [lia|exact Hx2].
+    + constructor; [exact IH2|]. eapply Forall_impl; [|exact IH1]. cbn. intros x [Hx1 _]. lia.
+Qed.
+
+Theorem auto_pid_sorted period ops : adds ops <= max_adds ->
+  no_panic (snd (mux_run_parts (new_muxer period) ops)) -> Forall op_entry_ok ops ->
+  Forall auto_pid_ok (auto_pids (new_muxer period) ops) /\ StronglySorted Z.lt (auto_pids (new_muxer period) ops).
+Proof.
+  intros Hmax Hnp Hen.
+  destruct (auto_pids_spec ops (new_muxer period) 0 (new_muxer_inv period) (new_muxer_pid_inv period) ltac:(lia) ltac:(lia) Hnp Hen) as [H1 H2].
+  split; [|exact H2]. eapply Forall_impl; [|exact H1]. cbn. tauto.
+Qed.
+
+Lemma run_pid_inv : forall ops s a, ms_inv s -> pid_inv s a -> 0 <= a -> a + adds ops <= max_adds ->
+  no_panic (snd (mux_run_parts s ops)) -> Forall op_entry_ok ops ->
+  pid_inv (fst (mux_run_parts s ops)) (a + adds ops).
+Proof.
+  induction ops as [|o r IH]; intros s a Hinv Hpid Ha Hmax Hnp Hen; [cbn; rewrite Z.add_0_r; exact Hpid|].
+  rewrite mux_run_parts_cons in *. cbn [fst snd adds fold_right] in *. fold (adds r) in *.
+  inversion Hnp as [|x xs Hp Hnp']; subst. inversion Hen as [|y ys Ho Hen']; subst.
+  destruct (mux_step_part s o) as [s1 p] eqn:E. cbn [fst snd] in *.
+  pose proof (adds_nonneg r) as Hr.
+  assert (His : 0 <= is_add o <= 1) by (destruct o; cbn; lia).
+  rewrite Z.add_assoc. apply IH; try assumption; try lia.
+  - eapply step_inv; eauto.
+  - eapply step_pid_inv; eauto. lia.
+Qed.
+
+(* an automatic addition in a state a run reaches: the PID it assigns is not in use *)
+Theorem auto_pid_fresh period ops es s' p :
+  let s := fst (mux_run_parts (new_muxer period) ops) in
+  adds ops + 1 <= max_adds -> no_panic (snd (mux_run_parts (new_muxer period) ops)) -> Forall op_entry_ok ops ->
+  PMTElementaryStream_ElementaryPID es = 0 -> mux_step_part s (MAdd es) = (s', p) -> pa_res p = Ok tt ->
+  exists pid, ms_streams s' = ms_streams s ++ [with_pid es pid] /\ auto_pid_ok pid /\
+              stream_pid_in pid (ms_streams s) = false /\ es_mem pid (ms_es s) = false.
+Proof.
+  intros s Hmax Hnp Hen Hz Hstep Hok. pose proof (adds_nonneg ops) as Hr.
+  assert (Hinv : ms_inv s) by (apply run_inv; [apply new_muxer_inv|assumption|assumption]).
+  assert (Hpid : pid_inv s (0 + adds ops)).
+  { apply run_pid_inv; try assumption; try lia; [apply new_muxer_inv|apply new_muxer_pid_inv]. }
+  destruct (auto_add_spec _ _ _ _ _ Hinv Hpid ltac:(lia) ltac:(lia) Hz Hstep Hok) as (pid & H1 & _ & _ & H3 & H4 & H5 & H6).
+  exists pid. unfold auto_pid_ok. repeat split; try assumption; lia.
 Qed.
